@@ -517,6 +517,9 @@ def main_c11(tier):
                 acases.append(advgen.transitive_case(rng, 'j%02d' % k, shadow_std=(k % 4 == 1), nfiles=1 + (k // 2) % 2, other_used=(k % 2 == 0)))
             for k in range(2 if quick else 6):
                 acases.append(advgen.gen_case(rng, 'l%02d' % k, adversarial=True, ninj=1, nfiles=3, force_async=True))
+            # one composite type mentioning several same-named packages nobody imports (w10-C11-1)
+            for k in range(2 if quick else 6):
+                acases.append(advgen.composite_transitive_case(rng, 'o%02d' % k, npk=4 + k % 3))
             aroot = w.path('adv-c11')
             advgen.write_cases(aroot, acases)
 
